@@ -36,6 +36,7 @@ def gen_design(r, cfg):
                                "width": r.choice([1, 1, 1, 2, 4])})
         prims.append(p)
     modules = []
+    mode = cfg.get("order", r.choice(["bottom_up", "top_down", "shuffled"]))
     depth = cfg.get("depth", r.choice([1, 2, 3]))
     levels = []
     for level in range(depth):
@@ -47,6 +48,21 @@ def gen_design(r, cfg):
             for _ in range(r.randint(0 if (level == depth - 1 and r.random() < 0.2) else 1, cfg.get("max_ports", 3))):
                 m["ports"].append({"name": ident(r, pn, 0.08), "dir": r.choice(["input", "output", "inout"]),
                                    "width": r.choice([1, 1, 2, 3, 4])})
+                if r.random() < cfg.get("alias_rate", 0.12):
+                    # an aliased header port  .p({n2, n1, n0})  : the port is only a port, the named scalar nets
+                    # (most significant first) are what the body sees; directions are declared on those nets
+                    p_ = m["ports"][-1]
+                    if p_["width"] > 1 and r.random() < 0.35 and mode == "bottom_up":
+                        # (only for modules declared before their first use: for a module that was instanced
+                        # earlier the reader has to know the width of n when it reads the header - outside the
+                        # supported subset, see DESIGN 14)
+                        # .p(n) with  input [w-1:0] n;  : one differently named net of the port's width
+                        p_["alias_wide"] = ident(r, pn, 0.08)
+                        m["ansi"] = False
+                        continue
+                    p_["alias"] = [ident(r, pn, 0.08) for _ in range(p_["width"])]
+                    p_["alias_wire_decl"] = r.random() < 0.5
+                    m["ansi"] = False
             for _ in range(r.randint(0, cfg.get("max_wires", 3))):
                 w = r.choice([1, 1, 2, 4])
                 lsb = r.choice([0, 0, 0, 1, 3])
@@ -97,7 +113,6 @@ def gen_design(r, cfg):
             modules.append(m)
         levels.append(row)
     order = list(modules)
-    mode = cfg.get("order", r.choice(["bottom_up", "top_down", "shuffled"]))
     if mode == "top_down":
         order.reverse()
     elif mode == "shuffled":
@@ -119,7 +134,11 @@ def nets_of(m):
     """name -> (msb, lsb) of every declared net of a module (ports are based at 0)."""
     out = {}
     for p in m["ports"]:
-        out[p["name"]] = (p["width"] - 1, 0)
+        if p.get("alias"):
+            for n in p["alias"]:
+                out[n] = (0, 0)
+            continue
+        out[p.get("alias_wide") or p["name"]] = (p["width"] - 1, 0)
     for w in m["wires"]:
         out[w["name"]] = (w["msb"], w["lsb"])
     return out
@@ -221,7 +240,10 @@ def expected(d):
             return conn.setdefault(bit, set())
         for p in m["ports"]:
             for i in range(p["width"]):
-                touch((p["name"], i)).add(("port", p["name"], i))
+                if p.get("alias"):
+                    touch((p["alias"][p["width"] - 1 - i], 0)).add(("port", p["name"], i))
+                else:
+                    touch((p.get("alias_wide") or p["name"], i)).add(("port", p["name"], i))
         for inst in m["insts"]:
             for pname, e in inst["conns"]:
                 if e is None:
@@ -323,8 +345,27 @@ class Renderer:
                                        self.nm(p["name"])))
             s.append("(" + (",\n    ".join(ps)) + ");\n")
         else:
-            s.append("(" + ", ".join(self.nm(p["name"]) for p in m["ports"]) + ");\n")
+            def hdr(p):
+                if p.get("alias_wide"):
+                    return ".%s(%s)" % (self.nm(p["name"]), self.nm(p["alias_wide"]))
+                if not p.get("alias"):
+                    return self.nm(p["name"])
+                inner = (self.sp() + "," + self.sp()).join(self.nm(x) for x in p["alias"])
+                if len(p["alias"]) > 1 or r.random() < 0.5:
+                    inner = "{" + inner + "}"
+                return ".%s(%s)" % (self.nm(p["name"]), inner)
+            s.append("(" + ", ".join(hdr(p) for p in m["ports"]) + ");\n")
             for p in m["ports"]:
+                if p.get("alias"):
+                    for x in p["alias"]:
+                        s.append("  %s %s;\n" % (p["dir"], self.nm(x)))
+                    if p.get("alias_wire_decl"):
+                        for x in p["alias"]:
+                            s.append("  wire %s;\n" % self.nm(x))
+                    continue
+                if p.get("alias_wide"):
+                    s.append("  %s %s%s;\n" % (p["dir"], self.rng_(p["width"] - 1, 0) + " ", self.nm(p["alias_wide"])))
+                    continue
                 s.append("  %s %s%s;\n" % (p["dir"], (self.rng_(p["width"] - 1, 0) + " ") if p["width"] > 1 else "",
                                            self.nm(p["name"])))
         s.append(self.comment())
